@@ -384,6 +384,20 @@ MicroSteps(f, stk) ==
                         \cup {<<"wextend", <<<<"w", "_size", "", 0>>>>, <<"o">>, <<>>, <<>>>>}
     [] f = "stack"   -> IF n < 2 THEN {<<"dup">>} ELSE {<<"swap">>}
     [] f = "binary"  -> IF n >= 2 THEN {<<"concat", "">>, <<"join", "INNER", <<<<"o", "o">>>>>>} ELSE {}
+    \* an extend that RE-ORDERS a column (o := x - o) or makes a new ordering column, then windows ordered by it
+    [] f = "xo"      -> {<<"extend", <<<<t, <<"b", "-", C("x"), C("o")>>>>>>>> : t \in {"o", "z"}}
+    [] f = "wo"      -> {<<"wextend", <<a>>, p, <<k>>, r>> :
+                           a \in {<<"w", "cumsum", "x", 0>>, <<"w", "_row_number", "", 0>>, <<"w", "shift", "x", 1>>},
+                           k \in {"o", "z"} \cap SetOf(cols), p \in {<<>>, <<"y">>}, r \in {<<>>} \cup {<<kk>> : kk \in {"o", "z"} \cap SetOf(cols)}}
+    \* windows over two-column orderings in both priorities (ties in the leading column make them differ)
+    [] f = "wo2"     -> {<<"wextend", <<a>>, <<>>, k, r>> :
+                           a \in {<<"w", "cumsum", "x", 0>>, <<"v", "_row_number", "", 0>>},
+                           k \in {<<"o", "x">>, <<"x", "o">>}, r \in {<<>>, <<"o">>}}
+    \* a grouped aggregate over a re-computed key, a selection / drop right after it
+    [] f = "po"      -> {<<"project", <<<<"w", fn, "x">>>>, <<k>>>> : fn \in {"sum", "max"}, k \in {"o", "z"} \cap SetOf(cols)}
+    [] f = "co"      -> {<<"drop_columns", <<k>>>> : k \in {"o", "x", "y", "z"} \cap SetOf(cols)}
+                        \cup {<<"select_columns", <<k>>>> : k \in {"w", "z"} \cap SetOf(cols)}
+    [] f = "oo"      -> {<<"order_rows", <<k>>, r, lim>> : k \in {"o", "z", "w"} \cap SetOf(cols), r \in {<<>>}, lim \in {0, 1}}
     [] OTHER -> {}
 FocusAll == {"extend", "wextend", "project", "select_rows", "cols", "order", "stack", "binary"}
 FamSteps(f, stk) ==
